@@ -92,6 +92,8 @@ type Desc struct {
 	Proto uint8      `json:"proto,omitempty"`
 	Plen  int        `json:"plen,omitempty"`
 	Src   []byte     `json:"src,omitempty"`
+	Pos   int        `json:"pos,omitempty"`    // cidat: options offset of option 82 (3 or 12..19)
+	Lay   int        `json:"lay,omitempty"`    // cidat: 0 = circuit-id + remote-id sub-options, 1 = circuit-id only
 }
 
 // ------------------------------------------------------------------------------ environment
@@ -716,40 +718,61 @@ func tcp(sp, dp uint16) []byte {
 	return h
 }
 
-// DHCPDISCOVER with msg type at opts[0..2] and, when cid != nil, option 82 at opts[3]
-func dhcpDiscover(mac, cid []byte) []byte {
-	d := make([]byte, 240+312)
-	d[0], d[1], d[2] = 1, 1, 6
-	copy(d[4:], []byte{0xde, 0xad, 0xbe, 0xef})
-	copy(d[28:], mac)
-	copy(d[236:], []byte{0x63, 0x82, 0x53, 0x63})
-	o := d[240:]
+// mkOpts: the 312-byte options area: message type at [0..2]; when cid != nil option 82 at offset pos (3, or 12..19
+// behind a client-id option of the right length) in the sub-option layout the program expects: [82][len][1][cid_len][cid]
+// followed (lay 0) by a remote-id sub-option.
+func mkOpts(pos, lay int, cid []byte) []byte {
+	o := make([]byte, 312)
 	o[0], o[1], o[2] = 53, 1, 1
 	if cid == nil {
 		o[3] = 255
-		return d
+		return o
 	}
-	o[3] = 82
-	o[4] = byte(2 + len(cid) + 4)
-	o[5] = 1
-	o[6] = byte(len(cid))
-	copy(o[7:], cid)
-	n := 7 + len(cid)
-	copy(o[n:], []byte{2, 2, 'r', 'r', 255})
-	return d
+	if pos != 3 {
+		l := pos - 5
+		o[3], o[4], o[5] = 61, byte(l), 1
+		for i := 6; i < pos; i++ {
+			o[i] = 0xaa
+		}
+	}
+	n := 2 + len(cid)
+	if lay == 0 {
+		n += 4
+	}
+	o[pos], o[pos+1], o[pos+2], o[pos+3] = 82, byte(n), 1, byte(len(cid))
+	copy(o[pos+4:], cid)
+	e := pos + 4 + len(cid)
+	if lay == 0 {
+		copy(o[e:], []byte{2, 2, 'r', 'r'})
+		e += 4
+	}
+	o[e] = 255
+	return o
 }
 
-func dhcpFrame(mac, cid []byte, tags [][2]uint16) []byte {
-	et := uint16(0x0800)
-	var tt [][2]uint16
-	// ethHdr writes (TPID?, TCI) pairs: first the ethertype of the tag, then the TCI; build manually
-	f := append(append([]byte{}, []byte{0xff, 0xff, 0xff, 0xff, 0xff, 0xff}...), mac...)
-	for _, t := range tags {
+// DHCPDISCOVER: chaddr = the hardware address (hlen = its length, rest of the field zero)
+func dhcpDiscover(mac, opts []byte) []byte {
+	d := make([]byte, 240)
+	d[0], d[1], d[2] = 1, 1, byte(len(mac))
+	copy(d[4:], []byte{0xde, 0xad, 0xbe, 0xef})
+	copy(d[28:44], mac)
+	copy(d[236:], []byte{0x63, 0x82, 0x53, 0x63})
+	return append(d, opts...)
+}
+
+func dhcpFrame(mac, cid []byte, tags [][2]uint16) []byte { return dhcpFrameOpts(mac, mkOpts(3, 0, cid), tags) }
+
+func dhcpFrameOpts(mac, opts []byte, tags [][2]uint16) []byte {
+	src := []byte{2, 0, 0, 0, 0, 0x77}
+	if len(mac) == 6 {
+		src = mac
+	}
+	f := append(append([]byte{}, []byte{0xff, 0xff, 0xff, 0xff, 0xff, 0xff}...), src...)
+	for _, t := range tags { // (TPID, TCI) pairs
 		f = append(f, byte(t[0]>>8), byte(t[0]), byte(t[1]>>8), byte(t[1]))
 	}
-	_ = tt
-	f = append(f, byte(et>>8), byte(et))
-	return append(f, ipv4([]byte{0, 0, 0, 0}, []byte{255, 255, 255, 255}, 17, udp(68, 67, dhcpDiscover(mac, cid)))...)
+	f = append(f, 0x08, 0x00)
+	return append(f, ipv4([]byte{0, 0, 0, 0}, []byte{255, 255, 255, 255}, 17, udp(68, 67, dhcpDiscover(mac, opts)))...)
 }
 
 const maxU64 = ^uint64(0)
@@ -801,21 +824,56 @@ func (e *env) keyCase(d Desc) vh.Case {
 	var o obs
 	tags := []string{d.Kind}
 	switch d.Kind {
-	case "mac":
+	case "mac": // hardware address of any length 0..16
 		mac := net.HardwareAddr(d.Mac)
-		// ebpf.MACToUint64 -> Loader.AddSubscriber -> subscriber_pools ; dhcp_fastpath_prog with chaddr = mac
+		pa := &bngebpf.PoolAssignment{PoolID: 1, LeaseExpiry: maxU64}
+		// (a) pkg/dhcp: ebpf.MACToUint64(req.ClientHWAddr) -> Loader.AddSubscriber ; dhcp_fastpath_prog reads chaddr[0..5]
 		e.dhcpReset()
-		e.soft(e.loader.AddSubscriber(bngebpf.MACToUint64(mac), &bngebpf.PoolAssignment{PoolID: 1, LeaseExpiry: maxU64}))
+		e.soft(e.loader.AddSubscriber(bngebpf.MACToUint64(mac), pa))
 		kv, _ := e.objs["dhcp_fastpath"].Dump("subscriber_pools")
 		v1, _ := e.runXDP(dhcpFrame(d.Mac, nil, nil))
-		// antispoof.AddBinding(mac, palindromic ip) ; antispoof_ingress with that source MAC and address
+		// (b) the C function alone: an entry at "first six bytes of the zero-padded chaddr, big-endian, as a native u64"
+		chaddr := make([]byte, 16)
+		copy(chaddr, d.Mac)
+		var want uint64
+		for i := 0; i < 6; i++ {
+			want = want<<8 | uint64(chaddr[i])
+		}
+		wantb := make([]byte, 8)
+		binary.LittleEndian.PutUint64(wantb, want)
+		e.dhcpReset()
+		e.soft(e.loader.AddSubscriber(want, pa))
+		v1b, _ := e.runXDP(dhcpFrame(d.Mac, nil, nil))
+		out := [][]uint64{bl(onlyKey(kv)), bl(wantb), {b2n(v1 == bpfrun.XDPTx), b2n(v1b == bpfrun.XDPTx)}}
+		// (c) antispoof.AddBinding(mac, palindromic ip) ; antispoof_ingress with that source MAC and address
 		e.objs["antispoof"].Clear("subscriber_bindings")
 		e.soft(e.asm.SetMode(antispoof.ModeStrict))
-		e.soft(e.asm.AddBinding(mac, net.IPv4(10, 7, 7, 10)))
-		kv2, _ := e.objs["antispoof"].Dump("subscriber_bindings")
-		fr := append(ethHdr([]byte{2, 0, 0, 0, 0, 9}, d.Mac, nil, 0x0800), ipv4([]byte{10, 7, 7, 10}, []byte{8, 8, 8, 8}, 17, udp(1000, 53, make([]byte, 8)))...)
-		v2, _ := e.runTC("antispoof", "antispoof_ingress", fr)
-		o = obs{"OMac " + nl(bl(d.Mac)), nll([][]uint64{bl(onlyKey(kv)), bl(onlyKey(kv2)), {b2n(v1 == bpfrun.XDPTx), b2n(v2 == bpfrun.TCActOK)}})}
+		if err := e.asm.AddBinding(mac, net.IPv4(10, 7, 7, 10)); err != nil {
+			kv2, _ := e.objs["antispoof"].Dump("subscriber_bindings")
+			out = append(out, []uint64{0}, bl(onlyKey(kv2)), []uint64{1})
+		} else {
+			kv2, _ := e.objs["antispoof"].Dump("subscriber_bindings")
+			src := d.Mac
+			if len(src) != 6 {
+				src = []byte{2, 0, 0, 0, 0, 0x78}
+			}
+			fr := append(ethHdr([]byte{2, 0, 0, 0, 0, 9}, src, nil, 0x0800), ipv4([]byte{10, 7, 7, 10}, []byte{8, 8, 8, 8}, 17, udp(1000, 53, make([]byte, 8)))...)
+			v2, _ := e.runTC("antispoof", "antispoof_ingress", fr)
+			out = append(out, []uint64{1}, bl(onlyKey(kv2)), []uint64{b2n(v2 == bpfrun.TCActOK)})
+		}
+		// (d) antispoof.RemoveBinding has no length check
+		panicked := func() (p bool) {
+			defer func() {
+				if recover() != nil {
+					p = true
+				}
+			}()
+			e.asm.RemoveBinding(mac)
+			return false
+		}()
+		out = append(out, []uint64{b2n(panicked)})
+		o = obs{"OMac " + nl(bl(d.Mac)), nll(out)}
+		tags = append(tags, fmt.Sprintf("maclen:%d", len(d.Mac)))
 	case "ip":
 		ip := net.IP(d.IP)
 		var gob []byte
@@ -912,6 +970,26 @@ func (e *env) keyCase(d Desc) vh.Case {
 		}
 		o = obs{"OCid " + nl(bl(d.Cid)), nll([][]uint64{bl(onlyKey(kv)), {b2n(v == bpfrun.XDPTx)}})}
 		tags = append(tags, fmt.Sprintf("len<=32:%v", len(d.Cid) >= 1 && len(d.Cid) <= 32))
+	case "cidat":
+		e.dhcpReset()
+		e.soft(e.loader.AddCircuitIDSubscriber(d.Cid, &bngebpf.PoolAssignment{PoolID: 1, LeaseExpiry: maxU64}))
+		kv, _ := e.objs["dhcp_fastpath"].Dump("circuit_id_subscribers")
+		cid := d.Cid
+		if cid == nil {
+			cid = []byte{}
+		}
+		opts := mkOpts(d.Pos, d.Lay, cid)
+		v, _ := e.runXDP(dhcpFrameOpts([]byte{2, 0, 0, 0, 0, 0x33}, opts, nil))
+		mk := bngebpf.MakeCircuitIDKey(d.Cid)
+		if !bytes.Equal(mk[:], onlyKey(kv)) {
+			e.errs = append(e.errs, "MakeCircuitIDKey differs from the key AddCircuitIDSubscriber wrote")
+		}
+		trim := len(opts)
+		for trim > 0 && opts[trim-1] == 0 {
+			trim--
+		}
+		o = obs{fmt.Sprintf("OCidAt %d%%nat %s %d%%nat %s", d.Pos, nl(bl(opts[:trim])), len(opts), nl(bl(d.Cid))), nll([][]uint64{bl(onlyKey(kv)), {b2n(v == bpfrun.XDPTx)}})}
+		tags = append(tags, fmt.Sprintf("pos:%d", d.Pos), fmt.Sprintf("lay:%d", d.Lay), fmt.Sprintf("len<=32:%v", len(d.Cid) >= 1 && len(d.Cid) <= 32))
 	case "vlan":
 		e.dhcpReset()
 		e.soft(e.loader.AddVLANSubscriber(d.S, d.C, &bngebpf.PoolAssignment{PoolID: 1, LeaseExpiry: maxU64}))
@@ -1009,8 +1087,28 @@ func genKeys(r *vh.Rng, thorough bool) []Desc {
 		}
 	}
 	ds = append(ds, Desc{Kind: "mac", Mac: []byte{0xff, 0xff, 0xff, 0xff, 0xff, 0xff}}, Desc{Kind: "mac", Mac: []byte{0, 0, 0, 0, 0, 1}})
-	for i := 0; i < 40*scale; i++ {
+	for i := 0; i < 20*scale; i++ {
 		ds = append(ds, Desc{Kind: "mac", Mac: r.Bytes(6)})
+	}
+	// hardware addresses of EVERY length 0..16 (hlen of the BOOTP header): zeros, all-ones, counting, edge byte in the
+	// last / seventh position, random
+	for l := 0; l <= 16; l++ {
+		z, f, c := make([]byte, l), make([]byte, l), make([]byte, l)
+		for i := 0; i < l; i++ {
+			f[i], c[i] = 0xff, byte(i+1)
+		}
+		ds = append(ds, Desc{Kind: "mac", Mac: z}, Desc{Kind: "mac", Mac: f}, Desc{Kind: "mac", Mac: c})
+		for _, b := range []byte{0x01, 0x80, 0xff} {
+			if l > 0 {
+				m := make([]byte, l)
+				copy(m, []byte{2, 0x11, 0x22, 0x33, 0x44, 0x55, 0x66, 0x77})
+				m[l-1] = b
+				ds = append(ds, Desc{Kind: "mac", Mac: m})
+			}
+		}
+		for i := 0; i < 2*scale; i++ {
+			ds = append(ds, Desc{Kind: "mac", Mac: r.Bytes(l)})
+		}
 	}
 	// IPv4 per site: palindromes (guarded) and general addresses (defect stream)
 	privs := [][]byte{{10, 0, 0, 1}, {10, 1, 2, 3}, {172, 16, 5, 9}, {192, 168, 1, 100}, {100, 64, 0, 7}, {10, 255, 255, 254}}
@@ -1035,18 +1133,23 @@ func genKeys(r *vh.Rng, thorough bool) []Desc {
 	for _, ip := range append(append([][]byte{}, ppal...), privs...) { // site 2: the program only NATs private sources
 		ds = append(ds, Desc{Kind: "ip", Site: 2, IP: ip})
 	}
-	// circuit-ids of every length 0..64 (exhaustive in length), content random / zero-containing
+	// circuit-ids: every length 0..64 x every options offset the program recognises (3, 12..19) x sub-option layout
+	positions := []int{3, 12, 13, 14, 15, 16, 17, 18, 19}
 	for l := 0; l <= 64; l++ {
 		c := r.Bytes(l)
 		for i := range c {
 			c[i] |= 1
 		}
-		ds = append(ds, Desc{Kind: "cid", Cid: c})
-		if thorough || l%8 == 0 {
-			c2 := r.Bytes(l)
-			ds = append(ds, Desc{Kind: "cid", Cid: c2})
+		ds = append(ds, Desc{Kind: "cid", Cid: c}, Desc{Kind: "hash", Cid: c})
+		for _, pos := range positions {
+			ds = append(ds, Desc{Kind: "cidat", Cid: c, Pos: pos, Lay: 0})
+			if thorough || l <= 3 || (l >= 30 && l <= 34) || l == 64 {
+				ds = append(ds, Desc{Kind: "cidat", Cid: c, Pos: pos, Lay: 1})
+			}
+			if thorough {
+				ds = append(ds, Desc{Kind: "cidat", Cid: r.Bytes(l), Pos: pos, Lay: r.Intn(2)})
+			}
 		}
-		ds = append(ds, Desc{Kind: "hash", Cid: c})
 	}
 	// VLAN pairs
 	for _, s := range []uint16{1, 2, 100, 2047, 2048, 4094, 4095} {
